@@ -39,6 +39,7 @@ RULE = ('1-D: input pixel i at loglam c0+1e-4*i; a case = (n, zero-weight bit pa
         'Non-trivial = at least one good input pixel and at least one output pixel inside the input range (1-D/2-D), every '
         'preprocess case. Distinct = distinct case tuples.')
 ASSUMPTIONS = [
+    'a single spectrum is also passed as a one-row stack (1, 128) with constant / ramp / non-monotone inverse variance; preprocess_spectra redshifts: 0, 0.01, 0.1 and -0.002',
     '"does not lie between two adjacent good input pixels" is read most permissively: an output pixel may carry weight iff, '
     'for some exposure, it coincides with a good pixel or lies strictly between two adjacent pixels that are both good',
     '"next to ... runs of zero-weight pixels": on output grids that contain the input lattice (same, wider) a pixel '
